@@ -151,6 +151,9 @@ func compareToModel(s Session, r *sessRun, i int, pre *simos.FS) *Violation {
 		stats.probe("model-undefined")
 		return nil
 	}
+	if res.Runaway {
+		return viol14("no-termination", p, e, "process was still making I/O calls after %d of them: it does not terminate; argv=%q", len(res.Steps), p.Argv)
+	}
 	if res.Crash != "" {
 		return viol14("crash", p, e, "process panicked (%s at %s) where the library, called directly with the same inputs, did not", res.Crash, res.CrashAt)
 	}
@@ -453,6 +456,9 @@ func checkC14Fault(c C14Case, base *sessRun, info *caseInfo) (*Violation, []stri
 	kind := res.Fired[0].Kind
 	e := base.Exp[i]
 	log := flt.Log
+	if res.Runaway {
+		return viol14("no-termination", p, e, "under %s the process was still making I/O calls after %d of them: it does not terminate; argv=%q", kind, len(res.Steps), p.Argv), log, info
+	}
 	if res.Crash != "" {
 		return viol14("fault-crash", p, e, "process panicked under %s: %s at %s", kind, res.Crash, res.CrashAt), log, info
 	}
